@@ -103,13 +103,17 @@ def gjk_nesterov_accelerated(
     # normalize_support_direction is for soem reason only needed when both colliders are an mesh.
     normalize_support_direction = type(collider0) == MeshGraph and type(collider1) == MeshGraph
 
-    # Infaltion is only used with spheres and capsules
+    # Infaltion is only used with spheres and capsules. Their radius is only
+    # left out of the support points if both colliders have a specialised
+    # support function, otherwise the generic support functions are used for
+    # both colliders and those already include the radius.
     inflation = 0.0
-    if type(collider0) == Sphere or type(collider0) == Capsule:
-        inflation += collider0.radius
+    if _has_specialised_support(collider0) and _has_specialised_support(collider1):
+        if type(collider0) == Sphere or type(collider0) == Capsule:
+            inflation += collider0.radius
 
-    if type(collider1) == Sphere or type(collider1) == Capsule:
-        inflation += collider1.radius
+        if type(collider1) == Sphere or type(collider1) == Capsule:
+            inflation += collider1.radius
 
     upper_bound += inflation
 
@@ -518,6 +522,10 @@ def support_function(dir, collider0, collider1):
         return support0, support1
 
     return collider0.support_function(dir), collider1.support_function(-dir)
+
+
+def _has_specialised_support(collider):
+    return type(collider) in (Sphere, Capsule, Box, Ellipsoid, Cylinder)
 
 
 def select_support(dir, collider):
